@@ -222,7 +222,7 @@ MultiIndexSet selectGeneralSet(ProperWeights const &weights, std::function<int(i
     double noff = (double) normalized_offset;
     return generateGeneralMultiIndexSet(num_dimensions,
                                         [&](std::vector<int> const &index) -> bool{
-                                            if (check_limits) for(size_t j=0; j<num_dimensions; j++) if (index[j] > level_limits[j]) return false;
+                                            if (check_limits) for(size_t j=0; j<num_dimensions; j++) if ((level_limits[j] > -1) && (index[j] > level_limits[j])) return false;
                                             double w = 0;
                                             for(size_t j=0; j<num_dimensions; j++){
                                                 while(index[j] >= (int) cache[j].size()){
